@@ -56,7 +56,8 @@ func init() {
 			"a re-announcement without reconnect (detailed discovery reply once more, or partial notify lastStateChange=added for the known entity [0], [1] or [1,1]; same addresses, roles and types, in every second one new description texts: registry with ids, events and fan-out unchanged; followed by the same request again - refused -, or the delete of a held pair - granted -, and a fan-out probe), " +
 			"a fifth of the requests and a third of the deletes aimed at a pair that another peer holds with a FOREIGN device part in the client and/or server address (client address: the device of another connected peer - preferably the holder of the same-numbered pair -, of the mute peer, of the local device, or of nobody; " +
 			"server address: the device of a peer or of nobody), each followed by a SetData on the addressed server feature whose fan-out is judged, " +
-			"SetData, UpdateData, remote write (a quarter of them aimed at the feature with the same number in the parent / sub / sibling entity of a subscribed one), registry read}; non-trivial if it saw at least one grant, one rejection and one fan-out to >= 1 subscriber that was judged. " +
+			"SetData (with a freshly built object, or - 3 of 5 - with an object the application holds already: the one DataCopy returned or the one it passed to the previous SetData of that function, one list element / pointed-to scalar changed IN PLACE; list values carry the identifiers {1,2} or {1,3}), UpdateData, remote write (a quarter of them aimed at the feature with the same number in the parent / sub / sibling entity of a subscribed one), registry read}; non-trivial if it saw at least one grant, one rejection and one fan-out to >= 1 subscriber that was judged. " +
+			"Replica oracle: every subscribed remote feature keeps a copy of each function, fed ONLY by the notifications written to its connection and folded with the harness's own restricted-exchange rules on the decoded filters (no filter = replace; delete filter first; partial filter = merge by identifier / into the selected item); after every change the copy must equal the harness's model of the function's data (the operations folded with the same rules). " +
 			"concurrent case = 3 peer goroutines x 3-4 subscribe/unsubscribe calls and one publisher goroutine per server feature (1-3 of [1]/1, [1,1]/1, [2]/1; mute first subscriber in every second case; in every third case two fifths of the calls carry a foreign device part, " +
 			"mostly the device of a fourth, identically numbered bystander peer that is subscribed to everything and silent during the concurrent phase: its entries and ids must be the same afterwards and every publish must reach it), checked with porcupine; non-trivial if at least one publish reached a subscriber and the check returned Ok or Illegal. " +
 			"rmw case (shared with C09, regkit.go) = a registry pre-filled with 50-250 entries of a silent bystander connection on as many server features; 3-4 actor goroutines, each with its own connection and its own 1-2 (client, server feature) pairs, " +
@@ -74,6 +75,8 @@ func init() {
 				"If the entity/feature numbers, read on the sender's resp. the local tree, justify the request, both outcomes are accepted for the SENDER's own entry (result, event, registry and fan-out must agree with each other); if they do not, it must be refused; " +
 				"in no case may it add, remove or renumber an entry of another connection (pinned tree: requests are served by the numbers; a delete compares the client device literally and is refused; a foreign server device is ignored)",
 			"registry reads over the wire that stay unanswered are counted, not judged (that is C01's subject)",
+			"a SetData call whose object has the content the feature reports already is not a 'change' (never generated: every call carries a new token); a SetData call with an object that aliases the stored data and was modified in place IS a change of the feature's data through SetData",
+			"replica oracle: FeatureLocal.UpdateData without a partial selector announces the complete data under an empty partial filter, also when its own filters were 'delete' only or absent (DESIGN.md D36 row: outside the given properties); a subscriber copy that diverges after UpdateData(delete) or a filter-less UpdateData that removes identifiers is counted as an observation, not a violation, and re-synchronised",
 			"concurrent part: one publisher goroutine per server feature (two overlapping SetData calls on one function may legitimately both notify the later value)",
 			"'each remote feature currently subscribed' includes those whose entry follows that of a peer with a broken connection: the mute peer (SetupRemoteDevice with a nil writer) is not observed itself (no tap, not in the compared registries), only its effect on the others",
 		},
@@ -477,6 +480,13 @@ func c08Seq(c *rig.Ctx) {
 	}
 	grants, rejects, fanouts, fresh, reann := 0, 0, 0, 0, 0
 	servers := []string{"S0", "S1", "S2", "S3", "NM"}
+	kept := map[string]any{} // "server.function" -> the object the application passed to its last SetData call
+	// replica oracle: exp = the harness's own model of every function's data (what the operations so far leave, folded with
+	// the harness's rules); replicas = the copy each subscribed remote feature keeps, fed ONLY by the notifications it
+	// receives (folded with the same rules on the decoded filters). After every change each subscriber's copy must be the
+	// changed function's data.
+	exp := map[string]any{}
+	replicas := map[string]any{}
 	if cw.mute != nil {
 		hist = append(hist, "peer 'mute0' (its connection has no write handler) subscribed to S0, S1, S2, S3 and NM before everybody else")
 		c.Count("cases_with_a_mute_first_subscriber", 1)
@@ -581,10 +591,44 @@ func c08Seq(c *rig.Ctx) {
 	}
 
 	// fan-out of one data change on server feature srv, function fn, marker v; exempt = datagrams that belong to the request itself
-	judgeFanout := func(what, srv string, fn model.FunctionType, v int, changed bool, outs [][]model.DatagramType) {
+	judgeFanout := func(what, srv string, fn model.FunctionType, v int, changed bool, outs [][]model.DatagramType, newExp any) {
 		l := cw.locals[srv]
 		after := l.F.DataCopy(fn)
 		subsHere := cw.entriesOnServer(srv)
+		ek := srv + "." + string(fn)
+		rkOf := func(e c08Entry) string { return e.key() + "|" + string(fn) }
+		notModelled := map[string]bool{}
+		if changed {
+			for qi, q := range w.Peers {
+				ns, _ := rkNotifies(outs[qi])
+				for _, n := range ns {
+					if n.Fn != fn || len(n.Raw.Payload.Cmd) != 1 {
+						continue
+					}
+					for _, e := range subsHere {
+						if e.peer != qi || cw.pfeat[e.cli].Key(q) != n.Dst {
+							continue
+						}
+						if _, ok := replicas[rkOf(e)]; !ok {
+							replicas[rkOf(e)] = rkClone(exp[ek]) // subscribed since the last change: it holds what a read at that time returned
+						}
+						out, shape, modelled := rkReplicaApply(fn, replicas[rkOf(e)], n.Value, n.Raw.Payload.Cmd[0].Filter)
+						c.Count("notify_filters:"+what+":"+shape, 1)
+						if modelled {
+							replicas[rkOf(e)] = out
+						} else {
+							notModelled[rkOf(e)] = true
+						}
+					}
+				}
+			}
+			exp[ek] = newExp
+			if rig.CanonAny(exp[ek]) != rig.CanonAny(after) {
+				// what the operation itself does to the data is C02's and C04's subject: follow the stack
+				c.Count("replica:harness_model_of_the_data_differs_from_DataCopy:"+what, 1)
+				exp[ek] = rkClone(after)
+			}
+		}
 		for qi, q := range w.Peers {
 			ns, _ := rkNotifies(outs[qi])
 			c.Events(int64(len(ns)))
@@ -631,6 +675,38 @@ func c08Seq(c *rig.Ctx) {
 				}
 			}
 		}
+		if changed && !c.Failed() {
+			live := map[string]bool{}
+			for _, e := range subsHere {
+				live[rkOf(e)] = true
+				rep, ok := replicas[rkOf(e)]
+				if !ok {
+					continue
+				}
+				c.Events(1)
+				switch {
+				case notModelled[rkOf(e)]:
+					c.Count("replica:notify_with_filters_the_harness_rules_do_not_cover:"+what, 1)
+					replicas[rkOf(e)] = rkClone(exp[ek])
+				case rig.CanonAny(rep) == rig.CanonAny(exp[ek]):
+					c.Count("replica:subscriber_copy_equals_the_changed_data:"+what, 1)
+				case what == "UpdateData" || what == "UpdateData-delete":
+					// known observation (DESIGN.md D36 row, outside the given properties): FeatureLocal.UpdateData without a partial
+					// selector announces the complete remaining data under an empty partial filter - also when its own filters were
+					// "delete" or none at all -, so a subscriber that merges by identifier keeps what the server dropped
+					c.Count("observation:replica_diverges_after_"+what+"_(complete_data_under_an_empty_partial_filter)", 1)
+					replicas[rkOf(e)] = rkClone(exp[ek])
+				default:
+					fail(what+"/fanout/replica-diverges", "%s of %s on %s: subscriber %s of peer %d folds the notifications it received into %s, the function's data is %s; last notify to that peer: %s",
+						what, fn, srv, cw.pfeat[e.cli].Key(w.Peers[e.peer]), e.peer, rig.JS(rep), rig.JS(exp[ek]), rig.JS(outs[e.peer]))
+				}
+			}
+			for k := range replicas { // who is not subscribed while the data changes has to read it again
+				if strings.HasSuffix(k, "|"+srv+"|"+string(fn)) && !live[k] {
+					delete(replicas, k)
+				}
+			}
+		}
 		if changed {
 			if cw.mute != nil {
 				c.Count("fanouts_judged_behind_a_mute_subscriber", 1)
@@ -672,7 +748,7 @@ func c08Seq(c *rig.Ctx) {
 		l.F.SetData(fn, rkPayload(fn, cw.val))
 		outs := takeAll()
 		log("   SetData %s %s %s (fan-out probe)", srv, fn, rkToken(cw.val))
-		judgeFanout(what+"/SetData-after", srv, fn, cw.val, true, outs)
+		judgeFanout(what+"/SetData-after", srv, fn, cw.val, true, outs, rkClone(rkPayload(fn, cw.val)))
 		w.Core.Take()
 		switch {
 		case strings.Contains(what, "foreign"):
@@ -1147,11 +1223,39 @@ func c08Seq(c *rig.Ctx) {
 			what := ""
 			var outs [][]model.DatagramType
 			changed := false
+			var newExp any
+			ek := srv + "." + string(fn)
+			// a complete value: mostly the identifiers {1, 2}, now and then {1, 3} (one element goes, a new one comes)
+			full := func() any {
+				if alt, ok := rkPayloadAlt(fn, v); ok && r.Intn(3) == 0 {
+					c.Count("complete_values_with_another_identifier_set", 1)
+					return alt
+				}
+				return rkPayload(fn, v)
+			}
 			switch mode {
 			case 0:
 				what = "SetData"
-				log("#%d SetData %s %s %s", step, srv, fn, rkToken(v))
-				l.F.SetData(fn, rkPayload(fn, v))
+				// the object handed to SetData: freshly built, or one the application holds already - what DataCopy returned, or
+				// what it passed to the previous SetData of this function - with one element changed IN PLACE. Whatever object
+				// carries it: the feature's data changes through this SetData call, every subscriber gets one notification.
+				obj, reuse := full(), ""
+				switch r.Intn(5) {
+				case 0, 1:
+					if d := l.F.DataCopy(fn); rkMutateInPlace(fn, d, v, r.Intn(2) == 0) {
+						obj, reuse = d, "the object returned by DataCopy, one element changed in place"
+						what = "SetData-reused-DataCopy-object"
+					}
+				case 2:
+					if d, ok := kept[srv+"."+string(fn)]; ok && rkMutateInPlace(fn, d, v, r.Intn(2) == 0) {
+						obj, reuse = d, "the object passed to the previous SetData, one element changed in place"
+						what = "SetData-reused-previous-object"
+					}
+				}
+				kept[srv+"."+string(fn)] = obj
+				newExp = rkClone(obj)
+				log("#%d SetData %s %s %s %s: %s", step, srv, fn, rkToken(v), reuse, rig.JS(obj))
+				l.F.SetData(fn, obj)
 				outs = takeAll()
 				changed = rig.CanonAny(l.F.DataCopy(fn)) != before
 				if !changed {
@@ -1163,15 +1267,20 @@ func c08Seq(c *rig.Ctx) {
 				if rkIsList(fn) && strings.Contains(rig.JS(l.F.DataCopy(fn)), `"identificationId":2`) && r.Intn(4) == 0 {
 					what, v = "UpdateData-delete", 0 // the notify carries the remaining elements, no new value
 					log("#%d UpdateData(delete id 2) %s %s", step, srv, fn)
-					errT = l.F.UpdateData(fn, &model.IdentificationListDataType{}, nil, &model.FilterType{CmdControl: &model.CmdControlType{Delete: &model.ElementTagType{}},
-						IdentificationListDataSelectors: &model.IdentificationListDataSelectorsType{IdentificationId: util.Ptr(model.IdentificationIdType(2))}})
+					fd := &model.FilterType{CmdControl: &model.CmdControlType{Delete: &model.ElementTagType{}},
+						IdentificationListDataSelectors: &model.IdentificationListDataSelectorsType{IdentificationId: util.Ptr(model.IdentificationIdType(2))}}
+					newExp, _, _ = rkReplicaApply(fn, exp[ek], &model.IdentificationListDataType{}, []model.FilterType{*fd})
+					errT = l.F.UpdateData(fn, &model.IdentificationListDataType{}, nil, fd)
 				} else if rkIsList(fn) && !rig.IsNil(l.F.DataCopy(fn)) && r.Intn(3) > 0 {
 					what = "UpdateData-partial"
 					log("#%d UpdateData(partial) %s %s %s", step, srv, fn, rkToken(v))
+					newExp, _, _ = rkReplicaApply(fn, exp[ek], rkPartial(fn, v), []model.FilterType{*model.NewFilterTypePartial()})
 					errT = l.F.UpdateData(fn, rkPartial(fn, v), model.NewFilterTypePartial(), nil)
 				} else {
-					log("#%d UpdateData(full) %s %s %s", step, srv, fn, rkToken(v))
-					errT = l.F.UpdateData(fn, rkPayload(fn, v), nil, nil)
+					obj := full()
+					newExp = rkClone(obj)
+					log("#%d UpdateData(full) %s %s %s: %s", step, srv, fn, rkToken(v), rig.JS(obj))
+					errT = l.F.UpdateData(fn, obj, nil, nil)
 				}
 				outs = takeAll()
 				changed = rig.CanonAny(l.F.DataCopy(fn)) != before
@@ -1200,7 +1309,9 @@ func c08Seq(c *rig.Ctx) {
 				q := w.Peers[writer.peer]
 				log("#%d remote write by peer%d %s to %s %s %s (binding held by peer%d %s: %v)", step, writer.peer, writer.cli, srv, fn, rkToken(v), h.peer, h.cli, held)
 				takeAll()
-				mc := q.Send(model.CmdClassifierTypeWrite, cw.cliAddr(q, writer.cli), cw.srvAddr(srv), true, nil, rig.CmdFor(fn, rkPayload(fn, v)))
+				wobj := full()
+				newExp = rkClone(wobj)
+				mc := q.Send(model.CmdClassifierTypeWrite, cw.cliAddr(q, writer.cli), cw.srvAddr(srv), true, nil, rig.CmdFor(fn, wobj))
 				outs = takeAll()
 				ok, bad, rest := rkResultOf(outs[writer.peer], mc)
 				outs[writer.peer] = rest
@@ -1213,7 +1324,7 @@ func c08Seq(c *rig.Ctx) {
 				}
 			}
 			c.Events(1)
-			judgeFanout(what, srv, fn, v, changed, outs)
+			judgeFanout(what, srv, fn, v, changed, outs, newExp)
 			if evs := w.Core.Take(); rig.CountEv(evs, api.EventTypeSubscriptionChange, api.ElementChangeAdd)+rig.CountEv(evs, api.EventTypeSubscriptionChange, api.ElementChangeRemove) > 0 {
 				fail(what+"/event-unexpected", "%s published subscription change events", what)
 			}
